@@ -136,11 +136,11 @@ class C19(core.Check):
             return
         chk = self
 
-        def vy_print(lhs, end="\n", ctx=None):
+        def vy_print(*a, **k):  # transparent wrapper
             chk.print_depth += 1
             start = chk.out.tell() if chk.out is not None else 0
             try:
-                r = orig(lhs, end, ctx)
+                r = orig(*a, **k)
             except BaseException:
                 chk.print_depth -= 1
                 raise
@@ -166,9 +166,9 @@ class C19(core.Check):
             return
         chk = self
 
-        def vy_eval(item, ctx):
+        def vy_eval(*a, **k):  # transparent: whatever signature the function has (or gets) is the original's
             chk.vy_eval_calls += 1
-            return orig(item, ctx)
+            return orig(*a, **k)
 
         vy_eval.__verif_wrapped__ = True
         self.vy_eval_calls = 0
@@ -336,7 +336,13 @@ class C19(core.Check):
         elif x_ < 0.16:
             nodes.insert(rw.randint(0, len(nodes)), ["t", rw.choice(["λ›; ,", "⟨ λ›; | 2 ⟩ ,", "λ`p`,; ,", "λ2|+; …", "3 λ›; S ,",
                                                                       "⟨ λ`q`₴ 1; ⟩ ,", "λ›; ₴"])])
-        fk = rf.choice(["none", "fail", "fail", "kill", "kill", "kill_sweep", "stdin", "net"])
+        elif x_ < 0.20:
+            # programs whose generated Python does not compile: the error belongs in the error record like any other
+            nodes.insert(rw.randint(0, len(nodes)), ["t", rw.choice(["`\\x`", "`\\N`", "`a\x00b`", "¨…", "1 " + "( 1 " * 21 + ")" * 21,
+                                                                      "`\\u12`", "`\\U1`"])])
+        elif x_ < 0.24:
+            nodes.insert(rw.randint(0, len(nodes)), ["t", rw.choice(["□", "□ ,", "□ E", "□ h E ,"])])
+        fk = rf.choice(["none", "fail", "fail", "kill", "kill", "kill_sweep", "stdin", "net", "stdin_lines"])
         fault = dict(kind=fk)
         if fk == "fail":
             fault.update(target=rf.choice(FAIL_TARGETS), at=rf.randint(1, 6), exc=rf.choice(sorted(FAIL_EXC)),
@@ -347,6 +353,14 @@ class C19(core.Check):
             fault.update(after=rf.choice(["EOF", "OSERR", "INTR"]))
         elif fk == "net":
             fault.update(mode=rf.choice(["error", "tainted"]))
+        elif fk == "stdin_lines":
+            # the host's standard input HAS text (it never should be read online; if it is, it must stay text)
+            fault.update(lines=[rf.choice([CANARY_EXPR.format(tag="in1"), "print('leak-to-host')", "[1, 2]", "7"]),
+                                rf.choice([CANARY_STMT.format(tag="in2"), "__import__('sys').stdout.write('leak')", ""])])
+        if fk == "stdin_lines" and rf.random() < 0.6:
+            nodes.insert(rf.randint(0, len(nodes)), ["t", rf.choice(["□", "□ ,", "□ E", "□ h E ,"])])
+            if rf.random() < 0.6:
+                inputs = [i for i in inputs if False]
         layer = "flask" if rw.random() < 0.3 else "direct"
         if weird:
             uses_eval = True  # eval() and literal_eval() legitimately disagree on these: no online == offline clause
@@ -360,9 +374,9 @@ class C19(core.Check):
         return case
 
     # ---------------------------------------------------------------------------- one execution
-    def exec_once(self, text, flags, inputs, online, kill_at=None, fault=None, stdin_after="EOF", net=None):
+    def exec_once(self, text, flags, inputs, online, kill_at=None, fault=None, stdin_after="EOF", net=None, stdin_lines=None):
         """Run the real execute_vyxal once under the seams.  Returns a dict describing what happened."""
-        world.World(inputs=[], stdin_after=stdin_after)  # resets every seam
+        world.World(inputs=[], stdin=stdin_lines, stdin_after=stdin_after)  # resets every seam
         if net:
             payload = (CANARY_EXPR.format(tag="net")).encode() if net == "tainted" else b"1+1"
             world.URLLIB.reset(mode=net, payload=payload)
@@ -559,6 +573,15 @@ class C19(core.Check):
             log.append(dict(run="online+stdin", outcome=r["outcome"], stdin=r["stdin_faults"]))
             if r["outcome"] not in ("budget", "too-big"):
                 v = self.judge_online(r, f"online run with stdin {fault['after']}")
+                if v:
+                    return fail(*v)
+        elif fk == "stdin_lines":
+            r = self.exec_once(text, flags, inputs, True, stdin_lines=list(fault["lines"]))
+            steps += r["steps"]
+            faults["stdin_has_lines"] = 1
+            log.append(dict(run="online+stdin-lines", outcome=r["outcome"], stdin_reads=world.STDIN.reads, hits=r["hits"]))
+            if r["outcome"] not in ("budget", "too-big"):
+                v = self.judge_online(r, "online run while the host's stdin has text")
                 if v:
                     return fail(*v)
         elif fk == "net":
